@@ -21,6 +21,7 @@ func checkC12(c *Ctx) {
 	ruleNormProv(c)
 	ruleNormWS(c)
 	ruleNormReader(c)
+	ruleRawViewPhase(c)
 	ruleNulView(c)
 	ruleSameMachine(c)
 	ruleSpecBoundsFor(c, "C12")
